@@ -118,5 +118,17 @@ func main() {
 	if b, err := hex.DecodeString("16030100d1010000cd0301ffa288977c41a108342c98c27004a05d5f39efe070d512f13517b60dc4d3098500005ac014c00a0039003800880087c00fc00500350084c013c00900330032009a009900450044c00ec004002f00960041c011c007c00cc00200050004c012c00800160013c00dc003000a0015001200090014001100080006000300ff0201000060000b000403000102000a00340032000e000d0019000b000c00180009000a00160017000800060007001400150004000500120013000100020003000f0010001100230000000f000101"); err == nil {
 		emitRaw("tls-client-hello-extension-list-longer-than-the-segment", "LayerTypeTLS", b)
 	}
+	// DNS: names made of literal labels followed by a compression pointer, the target holding a
+	// label with a dot in it (a.b|com); a CNAME whose data is compressed the same way
+	dns := []byte{0x12, 0x34, 0x81, 0x80, 0, 1, 0, 2, 0, 0, 0, 0}
+	dns = append(dns, 3, 'a', '.', 'b', 3, 'c', 'o', 'm', 0, 0, 1, 0, 1)                        // question at 12
+	dns = append(dns, 3, 'w', 'w', 'w', 0xc0, 12, 0, 1, 0, 1, 0, 0, 0, 60, 0, 4, 1, 2, 3, 4)    // www + pointer, A
+	dns = append(dns, 0xc0, 25, 0, 5, 0, 1, 0, 0, 0, 60, 0, 7, 4, 'm', 'a', 'i', 'l', 0xc0, 12) // pointer, CNAME mail + pointer
+	emitRaw("dns-literal-labels-then-pointer-to-a-name-with-a-dotted-label", "LayerTypeDNS", dns)
+	dns2 := []byte{0x12, 0x35, 0x81, 0x80, 0, 1, 0, 2, 0, 0, 0, 0}
+	dns2 = append(dns2, 2, 'e', 'x', 3, 'o', 'r', 'g', 0, 0, 1, 0, 1)                                                  // question at 12: ex.org
+	dns2 = append(dns2, 3, 'w', 'w', 'w', 0xc0, 12, 0, 1, 0, 1, 0, 0, 0, 60, 0, 4, 1, 2, 3, 4)                         // www.ex.org A
+	dns2 = append(dns2, 2, 'm', 'x', 0xc0, 24, 0, 15, 0, 1, 0, 0, 0, 60, 0, 9, 0, 10, 4, 'm', 'a', 'i', 'l', 0xc0, 12) // mx.www.ex.org MX 10 mail.ex.org
+	emitRaw("dns-literal-labels-then-pointer-chain", "LayerTypeDNS", dns2)
 	emit("ipv4-two-record-route-options-tcp-two-sack-blocks", "link:1", eth(layers.EthernetTypeIPv4), i4, tcp, gopacket.Payload(fill(3, 7)))
 }
